@@ -76,21 +76,24 @@ def ob_tested_potential(kernel_key, par_case, test_spec, trial_spec, mesh1="pair
 # ---- bounded numeric: all families incl. Maxwell -----------------------------------------------------
 
 
-def _two_grids():
+def _two_grids(translate=False):
     v, e = SG.octa()
     g1 = SG.make_grid(v, e)
+    if translate:
+        # the second grid is a pure translate of the first with the same vertex / element numbering
+        return g1, SG.make_grid(v + np.array([[4.0], [0.5], [-0.3]]), e)
     v2, e2 = SG.tetra()
     g2 = SG.make_grid(0.8 * v2 + np.array([[3.5], [0.6], [-0.4]]), e2)
     return g1, g2
 
 
-def tested_scalar(op, pot_mod, pot_name, k, tk, rk, order):
+def tested_scalar(op, pot_mod, pot_name, k, tk, rk, order, translate=False):
     import importlib
     import bempp_cl.api as api
     from bempp_cl.api.integration.triangle_gauss import rule
 
     warnings.simplefilter("ignore")
-    g1, g2 = _two_grids()
+    g1, g2 = _two_grids(translate)
     par = Z.params(order, order)
     test = api.function_space(g1, *tk)
     trial = api.function_space(g2, *rk)
@@ -120,12 +123,12 @@ SCALAR_CASES = [("laplace_single", "laplace", "single_layer", None), ("laplace_d
 def ob_numeric_scalar(op, pot_mod, pot_name, k):
     """bounded: two-grid matrix == tested potential to 1e-12 (octahedron vs displaced tetrahedron; P1 x DP0 and DP1 x P1)."""
     worst = 0.0
-    for tk, rk in ((("P", 1), ("DP", 0)), (("DP", 1), ("P", 1))):
-        err = tested_scalar(op, pot_mod, pot_name, k, tk, rk, 3)
+    for tk, rk, tr in ((("P", 1), ("DP", 0), False), (("DP", 1), ("P", 1), False), (("DP", 0), ("P", 1), True)):
+        err = tested_scalar(op, pot_mod, pot_name, k, tk, rk, 3, tr)
         worst = max(worst, err)
         if err > 1e-12:
-            return violated("%s between disjoint grids differs from the tested %s.%s potential by %.2e" % (op, pot_mod, pot_name, err),
-                            witness={"op": op, "test": list(tk), "trial": list(rk)},
+            return violated("%s between disjoint grids%s differs from the tested %s.%s potential by %.2e" % (op, " (second grid = translate of the first)" if tr else "", pot_mod, pot_name, err),
+                            witness={"op": op, "test": list(tk), "trial": list(rk), "translate": tr},
                             replay={"callable": "checks.c07:replay_numeric_scalar", "kwargs": {"op": op, "pot_mod": pot_mod, "pot_name": pot_name, "k": [np.real(k), np.imag(k)] if k is not None else None},
                                     "confirmed": True}, signature="c07-numeric/%s" % op)
     return held("worst %.1e" % worst)
@@ -212,6 +215,9 @@ def main():
     for ts, rs in ((("P", 1, {"include_boundary_dofs": True}), ("DP", 0, {})), (("DP", 1, {}), ("P", 1, {"include_boundary_dofs": True})), (("DP", 0, {}), ("DP", 1, {}))):
         for m1, m2 in (("pair:2:012:120", "pair:1:012:201"), ("tetra", "fan3")):
             run.add("pipeline.two-grids[%s|%s %s%dx%s%d]" % (m1, m2, ts[0], ts[1], rs[0], rs[1]), "post", PL.ob_pipeline, m1, ts, rs, None, m2)
+    # the second grid is a pure translate of the first with identical numbering: still two different, disjoint grids (no pair may be treated as adjacent)
+    for m in ("pair:2:012:120", "tetra"):
+        run.add("pipeline.two-grids[%s and its translate, same numbering, DP0 x P1]" % m, "post", PL.ob_pipeline, m, ("DP", 0, {}), ("P", 1, {"include_boundary_dofs": True}), None, m)
     # trial / test spaces with swapped normals on some domains only and a colour-sorted element order that is not the identity (P1 on the 2x2 screen):
     # the normal multiplier must follow the element, not its position in the launch
     swp = ("P", 1, {"include_boundary_dofs": True, "swapped_normals": [2]})
